@@ -1041,9 +1041,9 @@ def generate_cfg(fns, bad):
             ", ".join("%d=%s" % (i, b) for i, b in enumerate(f["outs"])) or "-",
             ", ".join("%d=%s" % (i, b) for i, b in enumerate(f["calls"])) or "-"))
         out.append("def cfg_%s : Cfg :=\n%s\n" % (f["lname"], lean_cfg(f["cfg"])))
-    out.append("/-- (name, number of blob variables, number of outputs, skeleton) of every handled function -/")
-    out.append("def all : List (String × Nat × Nat × Cfg) := [")
-    out.append(",\n".join('  ("%s", %d, %d, cfg_%s)' % (f["lname"], len(f["blobs"]), len(f["outs"]), f["lname"]) for f in fns))
+    out.append("/-- (name, number of blob variables, callee table, skeleton) of every handled function -/")
+    out.append("def all : List (String × Nat × List String × Cfg) := [")
+    out.append(",\n".join('  ("%s", %d, [%s], cfg_%s)' % (f["lname"], len(f["blobs"]), ", ".join('"%s"' % c for c in f["calls"]), f["lname"]) for f in fns))
     out.append("]\n")
     out.append("def unhandled : List String := [%s]\n" % ", ".join(json.dumps(b[:160]) for b in bad))
     out.append("end Bee2V.Gen.CfgAll")
